@@ -13,10 +13,12 @@ import (
 	"context"
 	"errors"
 	"fmt"
+	"net"
 	"sort"
 	"strings"
 	"time"
 
+	"github.com/facette/natsort"
 	"github.com/go-kit/log"
 
 	"github.com/grafana/dskit/cache"
@@ -411,10 +413,27 @@ func runSelector(s *sim.Sim) {
 	s.SigFromTrace = true
 	n := s.Range(1, 64, "servers")
 	s.Event("servers=%d", n)
+	// name style: plain IPv4 literals, or IPv6 literals in a mix of canonical and expanded spellings (the
+	// resolved address then sorts differently from the configured name: the list that counts is the configured one)
+	style := s.Choose(2, "name-style")
+	name := func(i int) string {
+		if style == 0 {
+			return fmt.Sprintf("10.0.0.%d:11211", i)
+		}
+		switch s.Choose(3, "spelling") {
+		case 0:
+			return fmt.Sprintf("[fd00::%x]:11211", i)
+		case 1:
+			return fmt.Sprintf("[fd00:0:0:0:0:0:0:%x]:11211", i)
+		default:
+			return fmt.Sprintf("[fd00:0::%x]:11211", i)
+		}
+	}
 	var servers []string
 	for i := 1; i <= n; i++ {
-		servers = append(servers, fmt.Sprintf("10.0.0.%d:11211", i))
+		servers = append(servers, name(i))
 	}
+	natsort.Sort(servers) // "servers" is kept in the natural order of the configured names
 	shuffled := func() []string {
 		out := make([]string, len(servers))
 		switch s.Choose(6, "list-order-kind") {
@@ -459,8 +478,29 @@ func runSelector(s *sim.Sim) {
 		before[k] = x.String()
 	}
 	if n < 200 {
-		newServer := fmt.Sprintf("10.0.0.%d:11211", n+1)
-		servers = append(servers, newServer)
+		// a further server whose configured name comes last in natural order
+		newName := ""
+		for _, cand := range []string{fmt.Sprintf("10.0.0.%d:11211", n+1), fmt.Sprintf("[fd00::%x]:11211", n+1), fmt.Sprintf("[fd00::ffff:%x]:11211", n+1), fmt.Sprintf("[fe80::%x]:11211", n+1)} {
+			if (style == 0) != strings.HasPrefix(cand, "10.") {
+				continue
+			}
+			probe := append(append([]string{}, servers...), cand)
+			natsort.Sort(probe)
+			if probe[len(probe)-1] == cand {
+				newName = cand
+				break
+			}
+		}
+		if newName == "" {
+			s.Note("selector servers=%d (no appendable name)", n)
+			return
+		}
+		ra, rerr := net.ResolveTCPAddr("tcp", newName)
+		if rerr != nil {
+			s.Fail("set-servers", "", "%v", rerr)
+		}
+		newServer := ra.String()
+		servers = append(servers, newName)
 		if err := a.SetServers(shuffled()...); err != nil {
 			s.Fail("set-servers", "", "%v", err)
 		}
@@ -470,7 +510,7 @@ func runSelector(s *sim.Sim) {
 			if x.String() != before[k] {
 				moved++
 				if x.String() != newServer {
-					s.Fail("selector-reshuffle", "", "after appending %s key %q moved from %s to %s", newServer, k, before[k], x)
+					s.Fail("selector-reshuffle", "", "after appending %s (configured names in natural order: %v) key %q moved from %s to %s", newName, servers, k, before[k], x)
 				}
 			}
 		}
